@@ -33,6 +33,7 @@ const (
 	dstEth    = 20
 	feeChainA = 10
 	feeChainB = 20
+	feeChainW = 777
 )
 
 type subject struct {
@@ -327,6 +328,178 @@ func (h *hist) shrinkScript(paths []string) {
 	}
 }
 
+// windowScript is the directed scenario "pool members that are not consensus validators vote at
+// quorum-1": the pool additionally holds a candidate (approved, epoch not closed), a blacklisted
+// candidate and a validator that has called quitNode but whose quit is not committed yet. A fresh
+// subject collects ceil(2N/3)-1 validator votes, then those three cast their FIRST vote, then a
+// validator votes. "Current consensus validator" is ambiguous for the quitting node between its
+// quitNode and the next commitDpos, so only what holds under BOTH readings is judged:
+//   A: the quitting node is no validator any more (N = the others),  B: it still is (N includes it).
+// A release is a violation iff it is premature under A and under B; strict outsiders (candidate,
+// blacklisted, anybody else) must never change state; validators outside the ambiguity must be heard.
+// The history ends after this script (the validator bookkeeping is restored with the next universe).
+func (h *hist) windowScript(paths []string) {
+	r := h.r
+	if len(h.w.Vals) < 5 {
+		return
+	}
+	cand, black := pk.NewKey(h.rng), pk.NewKey(h.rng)
+	if err := h.w.RegisterCandidateOnly(cand, nil); err != nil {
+		r.Inconclusive("window: candidate: " + err.Error())
+		return
+	}
+	if err := h.w.RegisterCandidateOnly(black, pk.NewKey(h.rng)); err != nil {
+		r.Inconclusive("window: candidate 2: " + err.Error())
+		return
+	}
+	if err := h.w.BlackNodeOnly(black); err != nil {
+		r.Inconclusive("window: blackNode: " + err.Error())
+		return
+	}
+	q := h.w.Vals[h.rng.Intn(len(h.w.Vals))]
+	if rec := h.w.QuitNodeOnly(q); !rec.Ok {
+		r.Inconclusive("window: quitNode: " + rec.Err)
+		return
+	}
+	var sa []*pk.Key // validators under both readings
+	for _, v := range h.w.Vals {
+		if v != q {
+			sa = append(sa, v)
+		}
+	}
+	nA, nB := len(sa), len(sa)+1
+	h.logf("window: validators %d, quitting %x (quitNode sent, epoch not closed), candidate %x, blacklisted candidate %x", nA, q.Addr[:3], cand.Addr[:3], black.Addr[:3])
+	var s *subject
+	if h.rng.Intn(5) == 0 {
+		s = h.feeSubject(feeChainW) // a fee chain no other part of the history votes on
+	} else {
+		s = h.newSubject(paths[h.rng.Intn(5)])
+	}
+	votedA, votedQ, closed := 0, false, false
+	voted := map[*pk.Key]bool{}
+	castW := func(k *pk.Key, who string) {
+		inA := false
+		for _, v := range sa {
+			if v == k {
+				inA = true
+			}
+		}
+		isQ := k == q
+		var viewBefore uint64
+		if s.path == "fee" {
+			viewBefore, _ = h.w.Fee(s.chain)
+		}
+		o := h.w.Do(func() *nat.CallRecord {
+			switch s.path {
+			case "signature":
+				return h.w.AddSignature(k, s.side, s.subj, []byte{1, 2, 3})
+			case "fee":
+				return h.w.UpdateFee(k, s.chain, s.view, big.NewInt(int64(1+h.rng.Intn(1000))))
+			}
+			return h.w.Vote(s.im, k)
+		})
+		r.Eval(1)
+		released := 0
+		switch s.path {
+		case "signature":
+			released = cs.QuorumEvents(o.Rec)
+		case "fee":
+			va, _ := h.w.Fee(s.chain)
+			released = int(va - viewBefore)
+		default:
+			n, _, _ := o.TouchedUnder(scom.REQUEST)
+			released = len(n)
+			if len(o.Rec.CrossHashes) > released {
+				released = len(o.Rec.CrossHashes)
+			}
+		}
+		h.logf("window %s voter=%s/%x -> ok=%v err=%q released=%d touched=%d (validator votes %d of %d, quitting voted=%v)", s.path, who, k.Addr[:3], o.Rec.Ok, o.Rec.Err, released, len(o.Touched()), votedA, nA, votedQ)
+		r.Count("window_calls:"+who, 1)
+		h.shape += "w"
+		if who == "quitting-validator" && !voted[k] && !closed && votedA == cs.Threshold(nA)-1 {
+			r.Count("window_quitting_first_vote_at_quorum_minus_one", 1)
+		}
+		if (who == "candidate-peer" || who == "blacklisted-peer") && !closed && votedA == cs.Threshold(nA)-1 {
+			r.Count("window_outsider_first_vote_at_quorum_minus_one", 1)
+		}
+		// bookkeeping of accepted votes
+		if o.Rec.Ok && !voted[k] {
+			voted[k] = true
+			if inA {
+				votedA++
+			}
+			if isQ {
+				votedQ = true
+			}
+		}
+		cntB := votedA
+		if votedQ {
+			cntB++
+		}
+		switch {
+		case closed:
+			if released != 0 {
+				h.violation(s.path+" released-again", fmt.Sprintf("window: %d more release(s) after the release", released))
+			}
+		case !inA && !isQ: // strict outsiders under both readings
+			if released != 0 {
+				h.violation(s.path+" outsider-vote-released", "window: "+who)
+			} else if !o.Unchanged() {
+				h.violation(s.path+" outsider-vote-changed-state", fmt.Sprintf("window: %s ok=%v touched=%v", who, o.Rec.Ok, o.Touched()))
+			}
+		default:
+			okA := votedA >= cs.Threshold(nA)
+			okB := cntB >= cs.Threshold(nB)
+			if released > 1 || (released == 1 && !okA && !okB) {
+				h.violation(s.path+" released-below-threshold", fmt.Sprintf("window: released=%d by %s with %d of %d validators (+ quitting node voted=%v): premature whether or not the quitting node still counts as a validator", released, who, votedA, nA, votedQ))
+				return
+			}
+			if inA && !o.Rec.Ok {
+				h.violation(s.path+" validator-vote-refused", "window: "+o.Rec.Err)
+				return
+			}
+			if inA && released == 0 && okA && okB {
+				h.violation(s.path+" no-single-release-at-threshold", fmt.Sprintf("window: %d of %d validators voted, no release", votedA, nA))
+				return
+			}
+			if isQ {
+				if o.Rec.Ok {
+					r.Count("window_quitting_vote_accepted", 1)
+				} else {
+					r.Count("window_quitting_vote_refused", 1)
+				}
+			}
+		}
+		if released == 1 {
+			closed = true
+			r.Count("window_released", 1)
+		}
+	}
+	vals := append([]*pk.Key{}, sa...)
+	h.rng.Shuffle(len(vals), func(i, j int) { vals[i], vals[j] = vals[j], vals[i] })
+	c := cs.Threshold(nA) - 1
+	for i := 0; i < c && !h.bad; i++ {
+		castW(vals[i], "validator")
+	}
+	odd := []struct {
+		k   *pk.Key
+		who string
+	}{{q, "quitting-validator"}, {cand, "candidate-peer"}, {black, "blacklisted-peer"}, {h.outs[0], "outsider"}}
+	h.rng.Shuffle(len(odd), func(i, j int) { odd[i], odd[j] = odd[j], odd[i] })
+	for _, x := range odd {
+		if !h.bad {
+			castW(x.k, x.who)
+		}
+	}
+	for i := c; i < len(vals) && i < c+2 && !h.bad; i++ {
+		castW(vals[i], "validator")
+	}
+	if !h.bad {
+		castW(q, "quitting-validator")
+	}
+	r.Count("window_scripts", 1)
+}
+
 type tplT struct {
 	w     *cs.World
 	snap  *cs.Snapshot
@@ -440,6 +613,9 @@ func runHistory(r *kit.Run, rng *rand.Rand, n0, maxVals, idx int) {
 		k, who := h.pickVoter(s)
 		h.cast(s, k, who)
 	}
+	if !h.bad && rng.Intn(4) == 0 {
+		h.windowScript(paths)
+	}
 	if len(h.shape) > 90 {
 		h.shape = h.shape[:90]
 	}
@@ -492,7 +668,7 @@ func TestC25(t *testing.T) {
 	r.Assume("a consensus validator is identified by the address derived from its node public key; the account that registered the node (PeerPoolItem.Address) is an outsider unless it is that same address")
 	r.Assume("an outsider's call must neither count nor change state; whether it returns an error or a no-op success is recorded, not judged (after the release the vote router answers success without effect to anybody)")
 	r.Assume("addSignature may still store a validator's signature after the quorum event (the property only limits the event); the other entry points must not change state after the release")
-	r.Assume("validator-set changes are atomic in the histories (quitNode/approveCandidate immediately followed by commitDpos); the window between quitNode and commitDpos is recorded as an observation only")
+	r.Assume("validator-set changes inside the random part of the histories are atomic (quitNode/approveCandidate immediately followed by commitDpos). The window between quitNode and commitDpos is exercised by a directed scenario in which only what holds under both readings of 'current validator' for the quitting node is judged (a release is a violation iff it is premature whether or not the quitting node counts); approved candidates and blacklisted candidates are outsiders under every reading")
 	n := int(r.Get("histories"))
 	for _, p := range []string{"import/vote", "import/ripple", "signature", "fee"} {
 		r.Require("released:"+p, n/16)
@@ -503,6 +679,9 @@ func TestC25(t *testing.T) {
 	r.Require("calls:signature:already-released", n/8)
 	r.Require("histories_with_event_log_disabled", n/8)
 	r.Require("voter:repeat-voter", n)
+	r.Require("window_quitting_first_vote_at_quorum_minus_one", n/16)
+	r.Require("window_outsider_first_vote_at_quorum_minus_one", n/16)
+	r.Require("window_released", n/16)
 	r.Require("voter:former-validator", n/4)
 	r.Require("voter:validator-wallet", n)
 	r.Require("released_by:repeat-voter", n/12) // release triggered by a repeat voter after the set shrank
